@@ -294,7 +294,7 @@ struct Engine
         g_cur_hist = hist;
         if (op)
             g_cur_hist.push_back(*op);
-        alarm(g_watchdog_s);
+        alarm(containment() ? g_watchdog_s : 120); // (sanitizer flavour: not contained, so no retry - be generous)
         g_now_ns        = BASE_NS;
         ValStats before = g_vs;
         if (containment())
